@@ -5,6 +5,7 @@ package minijson
 // Contracts for govc (see /verif/DESIGN.md, C16). Comment-only file.
 
 //@ smt
+//@ (declare-fun isNumeric_spec (Str) Bool)   ; the value isNumeric returns for s (a name for it in callers' contracts)
 //@ (define-fun isdigit ((isdigit!c Int)) Bool (and (<= 48 isdigit!c) (<= isdigit!c 57)))
 //@ ; fnd(s): index of the first byte of s that is not a decimal digit (len(s) if there is none)
 //@ (declare-fun fnd (Str) Int)
@@ -17,6 +18,7 @@ package minijson
 // followed by at least one digit and only digits.
 //@ func isNumeric
 //@   pure
+//@   ensures [assumed-name] result == isNumeric_spec(s)
 //@   ensures [int-part] result ==> fnd(s) >= 1
 //@   ensures [no-leading-zero] result ==> fnd(s) == 1 || s[0] != '0'
 //@   ensures [frac] result && fnd(s) != len(s) ==> s[fnd(s)] == '.' && fnd(s) + 1 < len(s)
@@ -25,3 +27,38 @@ package minijson
 //@   loop 1 invariant forall j in [0, i) :: isdigit(s[j])
 //@   loop 2 invariant 0 <= i && i <= len(s) && (len(s) > 1 && s[0] == '0' ==> s[1] == '.')
 //@   loop 2 invariant (forall j in [0, i) :: isdigit(s[j])) || (fnd(s) >= 1 && fnd(s) + 1 <= i && fnd(s) + 1 < len(s) && s[fnd(s)] == '.' && (forall j in [fnd(s) + 1, i) :: isdigit(s[j])))
+
+// ---- object structure ----
+// json_esc(s) is the escaped form of s (the escape loop itself is covered by the escape table
+// obligations and the bounded oracle); jb_text(b) is the text written to the builder so far.
+//@ smt
+//@ (declare-fun json_esc (Str) Str)
+//@ (declare-fun str_fold_eq (Str Str) Bool)
+//@ end
+//@ extern strings.EqualFold
+//@   params (s, t)
+//@   pure
+//@   ensures result == str_fold_eq(s, t)
+//@ func escape
+//@   pure
+//@   ensures [assumed-escape] result == json_esc(s)
+
+// a member is `"<escaped key>": <value>`, preceded by ", " unless it is the first one
+//@ func (*JsonObjectBuilder).writeKey
+//@   modifies s.keyCount, ghost sb_content(addrof(s.sb))
+//@   ensures [count] old(s.keyCount) < 9223372036854775807 ==> s.keyCount == old(s.keyCount) + 1
+//@   ensures [text] sb_content(addrof(s.sb)) == old(sb_content(addrof(s.sb))) + (if old(s.keyCount) > 0 then ", " else "") + "\"" + json_esc(key) + "\": "
+//@ func (*JsonObjectBuilder).WriteLiteral
+//@   modifies s.keyCount, ghost sb_content(addrof(s.sb))
+//@   ensures [text] sb_content(addrof(s.sb)) == old(sb_content(addrof(s.sb))) + (if old(s.keyCount) > 0 then ", " else "") + "\"" + json_esc(key) + "\": " + literal
+//@ func (*JsonObjectBuilder).WriteString
+//@   modifies s.keyCount, ghost sb_content(addrof(s.sb))
+//@   ensures [text] sb_content(addrof(s.sb)) == old(sb_content(addrof(s.sb))) + (if old(s.keyCount) > 0 then ", " else "") + "\"" + json_esc(key) + "\": " + "\"" + json_esc(val) + "\""
+// a value is written bare only if it is a JSON number or spells true/false; otherwise it is a
+// quoted, escaped string
+//@ func (*JsonObjectBuilder).WriteInferred
+//@   modifies s.keyCount, ghost sb_content(addrof(s.sb))
+//@   ensures [number] isNumeric_spec(val) ==> sb_content(addrof(s.sb)) == old(sb_content(addrof(s.sb))) + (if old(s.keyCount) > 0 then ", " else "") + "\"" + json_esc(key) + "\": " + val
+//@   ensures [true] !isNumeric_spec(val) && str_fold_eq(val, "true") ==> sb_content(addrof(s.sb)) == old(sb_content(addrof(s.sb))) + (if old(s.keyCount) > 0 then ", " else "") + "\"" + json_esc(key) + "\": " + "true"
+//@   ensures [false] !isNumeric_spec(val) && !str_fold_eq(val, "true") && str_fold_eq(val, "false") ==> sb_content(addrof(s.sb)) == old(sb_content(addrof(s.sb))) + (if old(s.keyCount) > 0 then ", " else "") + "\"" + json_esc(key) + "\": " + "false"
+//@   ensures [string] !isNumeric_spec(val) && !str_fold_eq(val, "true") && !str_fold_eq(val, "false") ==> sb_content(addrof(s.sb)) == old(sb_content(addrof(s.sb))) + (if old(s.keyCount) > 0 then ", " else "") + "\"" + json_esc(key) + "\": " + "\"" + json_esc(val) + "\""
